@@ -147,8 +147,10 @@ void dominance(G g, typename G::node_t entry, VectorMap &df) {
       // n's predecessors until found a node that immediate
       // dominates n.
       node_t runner = source(e, g);
+      // A node can be in its own frontier (e.g., a loop header whose
+      // latch it dominates), so the walk must not stop at n itself.
       while (runner != boost::graph_traits<G>::null_vertex() &&
-             runner != idom[n] && runner != n) {
+             runner != idom[n]) {
         if (std::find(df[runner].begin(), df[runner].end(), n) ==
             df[runner].end())
           df[runner].push_back(n);
